@@ -12,6 +12,9 @@ reads, membership, best_match, to_header, ...), an outcome
     kd = 3    the position was not executed because the call did not return an object to use
     kd = 4xx  (or any other status code) a werkzeug HTTPException escaped, ty = its class name
 
+Function "RequestBody" (body family): slot = "<body>|<CONTENT_LENGTH variant>", text = CONTENT_TYPE; the bodies and
+variants come from the spec's table export (set_body_table).  Positions = those of "Request" plus uses of fresh requests.
+
 HostileTrace.tla holds the table `function -> position names -> documented result signatures` and
 judges every position.  The order of the positions is checked against the spec by `schema` lines.
 """
@@ -161,6 +164,7 @@ def table():
         "unquote_etag": (lambda s: http.unquote_etag(s), []),
         "unquote_header_value": (lambda s: http.unquote_header_value(s), []),
         "Request": (None, request_uses()),
+        "RequestBody": (None, request_uses() + body_uses()),
     }
     _TABLE = T
     return T
@@ -256,6 +260,63 @@ def request_uses():
     ]
 
 
+# ------------------------------------------------------------------------------ body family
+# name -> (kind, body bytes, canonical content type, {variant name: (CONTENT_LENGTH present, text)}); exported from the spec
+BODY_TABLE: dict = {}
+
+
+def set_body_table(bodies) -> None:
+    """bodies: the `bodies` value of MCHostile's table export for family "body"."""
+    BODY_TABLE.clear()
+    for b in bodies:
+        BODY_TABLE[b["name"]] = (b["kind"], bytes(b["bytes"]), "".join(map(chr, b["canon"])),
+                                 {c["name"]: (c["present"], "".join(map(chr, c["text"]))) for c in b["cls"]})
+
+
+def make_body_environ(slot: str, s: str) -> dict:
+    """slot = "<body name>|<CONTENT_LENGTH variant>", s = the CONTENT_TYPE text."""
+    body_name, cl = slot.split("|")
+    _kind, body, _canon, cls = BODY_TABLE[body_name]
+    present, text = cls[cl]
+    env = make_environ("CONTENT_TYPE_URL", s)
+    env["wsgi.input"] = io.BytesIO(body)
+    if present:
+        env["CONTENT_LENGTH"] = text
+    else:
+        del env["CONTENT_LENGTH"]
+        if cl == "terminated":
+            env["wsgi.input_terminated"] = True
+    return env
+
+
+def body_uses():
+    def fresh(r):
+        from werkzeug.wrappers import Request
+
+        return Request(make_body_environ(*r._c07))
+
+    def read_then_form(r):
+        f = fresh(r)
+        f.stream.read()
+        return f.form
+
+    return [
+        ("fresh.stream.read", lambda r: fresh(r).stream.read()),
+        ("fresh.get_data", lambda r: fresh(r).get_data(cache=False)),
+        ("fresh.get_data_text", lambda r: fresh(r).get_data(cache=False, as_text=True)),
+        ("fresh.get_json_force", lambda r: fresh(r).get_json(force=True)),
+        ("fresh.get_json_force_silent", lambda r: fresh(r).get_json(force=True, silent=True)),
+        ("fresh.files", lambda r: fresh(r).files),
+        ("fresh.values", lambda r: fresh(r).values),
+        ("fresh.read_then_form", read_then_form),
+        ("fresh.close", lambda r: fresh(r).close()),
+        ("files.read", lambda r: [f.read() for f in fresh(r).files.values()]),
+        ("files.names", lambda r: [x for f in fresh(r).files.values() for x in (f.filename, f.name, f.content_type, f.mimetype)]),
+        ("files.mimetype_params", lambda r: [f.mimetype_params for f in fresh(r).files.values()]),
+        ("files.content_length", lambda r: [f.content_length for f in fresh(r).files.values()]),
+    ]
+
+
 def schema_lines():
     """One line per function: the recorder's position names, to be compared with the spec's."""
     out = []
@@ -294,6 +355,15 @@ def run_call(fn: str, slot: str, s: str, budget: float = BUDGET_S) -> dict:
             from werkzeug.wrappers import Request
 
             k, t_, v = _outcome(lambda: Request(make_environ(slot, s)))
+        elif fn == "RequestBody":
+            from werkzeug.wrappers import Request
+
+            def build():
+                r = Request(make_body_environ(slot, s))
+                r._c07 = (slot, s)
+                return r
+
+            k, t_, v = _outcome(build)
         else:
             k, t_, v = _outcome(lambda: call(s))
         kd.append(k)
